@@ -15,9 +15,11 @@ func init() {
 			"(E2) the delete paths dereference nothing that is nil when the object is absent; " +
 			"(C15-d-store) a verdict is stored in the result cache only by the function that looked the key up, under the same key, and is exactly what that function returns next with a nil error; a hit returns the cached value unchanged; " +
 			"(C15-d-key) the key is (owner key of src, owner key of dst, protocol, port) in this order, the owner key holds namespace, owner name and label variant, the variant is always the hash of the labels given to the same pod, and the hashed text is an entry-delimited encoding of the whole label map. " +
+			"(C15-inv) removing a pod from the cache's owner index invalidates the owner's cached verdicts on every exit that does not know a non-empty remaining pod set of that owner (path states; `the owner is not in the index` is not such knowledge: the index is reset on every policy change). " +
 			"NOT decided: the answers themselves, correctness of deleteWorkload's substring matching, lru eviction, verdict changes through pod fields outside the cache key."
 		rules.CacheInvalidation(p, r)
 		rules.PreScanCannotFail(p, r, "E4a-scan")
+		rules.CacheInvalidationOnLastPod(p, r, "C15-inv")
 		rules.SortedTypestate(p, r)
 		// (E2) nil rules restricted to the functions reachable from DeleteObject ("deleting an absent object is a no-op, not a crash")
 		if del := p.Func(core.PkgEval, "PolicyEngine", "DeleteObject"); del != nil {
